@@ -1,15 +1,21 @@
 /-
   C02 — cut commits to its clause and ends the call.
-  Theorems about the engine model (all programs), and — for knowledge bases whose rule bodies are flat (empty, one
-  call / built-in / cut, or a conjunction of those) — the REFINEMENT of the engine model to the reference machine
-  with cut of Spec/CutMachine.lean (`C02_flat`, `C02_flat_exact`), whose cut rule is proved to do what the property
-  says (`machine_cut`, `machine_commit`, `machine_barriers_wf`).  For bodies with nested groups, disjunctions or
-  negation the machine comparison of the correspondence suite decides (Spec/Machine.lean, executable).
+  Theorems about the engine model (all programs), and the REFINEMENT of the engine model to a reference machine with
+  cut, whose cut rule is proved to do what the property says:
+    * `C02_groups`, `C02_groups_exact`, `group_machine_cut`, `group_machine_commit_group`, `group_machine_commit_body`,
+      `group_machine_barriers_wf`: rule bodies built from calls, built-ins, `!`, conjunctions and disjunctions nested
+      to any depth — the programs the property quantifies over (Spec/GroupMachine.lean);
+    * `C02_flat`, `C02_flat_exact`, `machine_cut`, `machine_commit`, `machine_barriers_wf`: the same for flat bodies
+      against the smaller machine of Spec/CutMachine.lean (kept: it is the specification that reads in a minute).
+  Bodies with `not` or `time` next to a cut: the machine comparison of the correspondence suite decides
+  (Spec/Machine.lean, executable).
 -/
 import SuironVerif.Lemmas.Exhausted
 import SuironVerif.Lemmas.EngineRefineCut
 import SuironVerif.Lemmas.CutMachineDet
 import SuironVerif.Lemmas.CutMachineProps
+import SuironVerif.Lemmas.EngineRefineGroup
+import SuironVerif.Lemmas.GroupMachineProps
 namespace Suiron.C02
 
 /-- executing `!` succeeds once with the bindings unchanged, marks the cut's own node and raises
@@ -265,6 +271,64 @@ theorem machine_commit {fo : FloatOps} {kb : KB} {t : Term} {σ : Subst} {idx n 
     Spec.CStep fo kb ⟨.goals (.endB S0.length true :: k') σ' :: S, c', o'⟩ b ↔ b = ⟨.goals k' σ' :: S0, c', o'⟩ :=
   ⟨fun hb => hb.det (Spec.call_then_commit h1 hmid h2), fun e => e ▸ Spec.call_then_commit h1 hmid h2⟩
 
+/-! ## against the reference machine with cut and groups (conjunctions and disjunctions nested to any depth) -/
+
+/-- REFINEMENT: for every knowledge base whose stored rules are facts or have bodies built from calls, built-ins, `!`,
+    and non-empty conjunctions and disjunctions of such goals, nested to any depth; every query, every number of
+    requests and every fuel: the answers the engine gives request after request (and the text written up to each)
+    are the observations of the reference machine with cut and groups started on the query goal. -/
+theorem C02_groups (fo : FloatOps) (kb : KB)
+    (hkb : ∀ key rs, kb.get key = some rs → ∀ r ∈ rs, r.body.isNil = true ∨ Spec.Grp.okG r.body = true)
+    (q : Term) (σ0 : Subst) (g0 g1 : G) (node : Node)
+    (hmk : mkNode fo.showF kb (.call q) σ0 g0 = .ok (node, g1)) (hg : Spec.GOK g0) (fs : List Nat) :
+    Spec.Grp.CRun fo kb ⟨[.goals [.g (.call q) 0] σ0], g0.counter, g0.out⟩ (Spec.askOut fo kb fs node g1) :=
+  Spec.Grp.query_refines_group_machine fo kb (Spec.Grp.okKB_of_rules kb hkb) q σ0 g0 g1 node hmk hg fs
+
+/-- EXACTLY: that machine is deterministic, so whatever it can be observed to show agrees position by position with
+    what the engine's requests return. -/
+theorem C02_groups_exact (fo : FloatOps) (kb : KB)
+    (hkb : ∀ key rs, kb.get key = some rs → ∀ r ∈ rs, r.body.isNil = true ∨ Spec.Grp.okG r.body = true)
+    (q : Term) (σ0 : Subst) (g0 g1 : G) (node : Node)
+    (hmk : mkNode fo.showF kb (.call q) σ0 g0 = .ok (node, g1)) (hg : Spec.GOK g0) (fs : List Nat)
+    (tr' : List (Option Subst × List String)) (hm : Spec.Grp.CRun fo kb ⟨[.goals [.g (.call q) 0] σ0], g0.counter, g0.out⟩ tr')
+    (i : Nat) (x y : Option Subst × List String) (hx : (Spec.askOut fo kb fs node g1)[i]? = some x) (hy : tr'[i]? = some y) : x = y :=
+  (C02_groups fo kb hkb q σ0 g0 g1 node hmk hg fs).det hm i x y hx hy
+
+/-- barriers are well-formed in every configuration the machine reaches from a query -/
+theorem group_machine_barriers_wf (fo : FloatOps) (kb : KB) (q : Goal) (σ0 : Subst) (c : Nat) (o : List String) (b : Spec.Grp.CConf)
+    (h : Spec.Grp.CSteps fo kb ⟨[.goals [.g q 0] σ0], c, o⟩ b) : Spec.Grp.CWF b.stack :=
+  h.wf (Spec.Grp.CWF.init q σ0)
+
+/-- THE CUT on the machine with groups: a clause of a call is chosen on top of the stack `S0`; while the machine works
+    above `S0` a cut of that clause's body — at any depth of its conjunctions and disjunctions — comes to run.  The one
+    step there is leaves exactly `S0` under the frame that goes on after the cut: no later clause of the call, no other
+    member of an enclosing disjunction, no alternative of a goal to the left of the cut, and `S0` (the caller, its
+    siblings, everything older) untouched. -/
+theorem group_machine_cut {fo : FloatOps} {kb : KB} {t : Term} {σ : Subst} {idx n : Nat} {k : List Spec.Grp.CG} {S0 : List Spec.Grp.CFrame}
+    {c : Nat} {o : List String} {mid : Spec.Grp.CConf} {args : Option TermList} {k' : List Spec.Grp.CG} {σ' : Subst} {S : List Spec.Grp.CFrame}
+    {c' : Nat} {o' : List String}
+    (h1 : Spec.Grp.CStep fo kb ⟨.try t σ idx n k :: S0, c, o⟩ mid) (hmid : S0.length < mid.stack.length)
+    (h2 : Spec.Grp.CStepsAbove fo kb S0.length mid ⟨.goals (.g (.bip "!" args) S0.length :: k') σ' :: S, c', o'⟩) (b : Spec.Grp.CConf) :
+    Spec.Grp.CStep fo kb ⟨.goals (.g (.bip "!" args) S0.length :: k') σ' :: S, c', o'⟩ b ↔
+      b = ⟨.goals (Spec.Grp.markCut k') σ' :: S0, c', o'⟩ :=
+  ⟨fun hb => hb.det (Spec.Grp.call_then_cut h1 hmid h2), fun e => e ▸ Spec.Grp.call_then_cut h1 hmid h2⟩
+
+/-- at the end of every group the cut was in, what the goals after the cut left behind is dropped -/
+theorem group_machine_commit_group {fo : FloatOps} {kb : KB} {t : Term} {σ : Subst} {idx n : Nat} {k : List Spec.Grp.CG} {S0 : List Spec.Grp.CFrame}
+    {c : Nat} {o : List String} {mid : Spec.Grp.CConf} {k' : List Spec.Grp.CG} {σ' : Subst} {S : List Spec.Grp.CFrame} {c' : Nat} {o' : List String}
+    (h1 : Spec.Grp.CStep fo kb ⟨.try t σ idx n k :: S0, c, o⟩ mid) (hmid : S0.length < mid.stack.length)
+    (h2 : Spec.Grp.CStepsAbove fo kb S0.length mid ⟨.goals (.endG S0.length true :: k') σ' :: S, c', o'⟩) (b : Spec.Grp.CConf) :
+    Spec.Grp.CStep fo kb ⟨.goals (.endG S0.length true :: k') σ' :: S, c', o'⟩ b ↔ b = ⟨.goals k' σ' :: S0, c', o'⟩ :=
+  ⟨fun hb => hb.det (Spec.Grp.call_then_commit_group h1 hmid h2), fun e => e ▸ Spec.Grp.call_then_commit_group h1 hmid h2⟩
+
+/-- and at the end of the body: the call yields no answer beyond the one being derived -/
+theorem group_machine_commit_body {fo : FloatOps} {kb : KB} {t : Term} {σ : Subst} {idx n : Nat} {k : List Spec.Grp.CG} {S0 : List Spec.Grp.CFrame}
+    {c : Nat} {o : List String} {mid : Spec.Grp.CConf} {k' : List Spec.Grp.CG} {σ' : Subst} {S : List Spec.Grp.CFrame} {c' : Nat} {o' : List String}
+    (h1 : Spec.Grp.CStep fo kb ⟨.try t σ idx n k :: S0, c, o⟩ mid) (hmid : S0.length < mid.stack.length)
+    (h2 : Spec.Grp.CStepsAbove fo kb S0.length mid ⟨.goals (.endB S0.length true :: k') σ' :: S, c', o'⟩) (b : Spec.Grp.CConf) :
+    Spec.Grp.CStep fo kb ⟨.goals (.endB S0.length true :: k') σ' :: S, c', o'⟩ b ↔ b = ⟨.goals k' σ' :: S0, c', o'⟩ :=
+  ⟨fun hb => hb.det (Spec.Grp.call_then_commit h1 hmid h2), fun e => e ▸ Spec.Grp.call_then_commit h1 hmid h2⟩
+
 /-! Non-vacuity: `t($X) :- g($X), !, fail.  t(other).  g(1). g(2).` has no answer
     (the pinned tree answered `t(other)`). -/
 def fo0 : FloatOps := ⟨fun a _ => a, fun a _ => a, fun a _ => a, fun a _ => a, fun _ => 0, fun _ => ""⟩
@@ -293,6 +357,38 @@ example : ∃ mid k' σ' S c' o', Spec.CStep fo0 kb0 ⟨.try (c1 "t" (.var 1 "$X
     refine Spec.CStepsAbove.step (Spec.CStep.call (key := "g/1") (by decide)) (by decide) ?_
     refine Spec.CStepsAbove.step (Spec.CStep.clauseOk (key := "g/1") (f := 20) (by decide) (by rfl) (by rfl)) (by decide) ?_
     exact Spec.CStepsAbove.refl
+  case h3 => decide
+
+/-! Non-vacuity for the machine with groups: `u($X) :- (g($X), ! ; $X = 9), fail.  u(other).` — the cut sits in the first
+    member of a disjunction that is the head of a conjunction.  The knowledge base is in the fragment of `C02_groups`;
+    the engine model answers none at once (no second member, no second clause); and the premises of
+    `group_machine_cut` are met with three frames to discard (second clause of `u/1`, second member of the disjunction,
+    second clause of `g/1`). -/
+def kb1 : KB :=
+  [("u/1", [⟨c1 "u" (.var 0 "$X"),
+             .and (.cons (.or (.cons (.and (.cons (.call (c1 "g" (.var 0 "$X"))) (.cons (.bip "!" none) .nil)))
+                               (.cons (.bip "fail" none) .nil)))
+                   (.cons (.bip "fail" none) .nil))⟩,
+            ⟨c1 "u" (.atom "other"), .nil⟩]),
+   ("g/1", [⟨c1 "g" (.int 1), .nil⟩, ⟨c1 "g" (.int 2), .nil⟩])]
+example : Spec.Grp.okKBB kb1 = true := by decide
+example : (match next fo0 kb1 60 (.call (c1 "u" (.var 1 "$X")) [] false none 0 2) { G.init with counter := 1 } with
+           | .ok st => some st.sol | _ => none) = some none := by decide
+example : ∃ mid k' σ' S c' o', Spec.Grp.CStep fo0 kb1 ⟨.try (c1 "u" (.var 1 "$X")) [] 0 2 [] :: [], 1, []⟩ mid ∧
+    ([] : List Spec.Grp.CFrame).length < mid.stack.length ∧
+    Spec.Grp.CStepsAbove fo0 kb1 ([] : List Spec.Grp.CFrame).length mid
+      ⟨.goals (.g (.bip "!" none) ([] : List Spec.Grp.CFrame).length :: k') σ' :: S, c', o'⟩ ∧ S.length = 3 := by
+  have h1 : Spec.Grp.CStep fo0 kb1 ⟨.try (c1 "u" (.var 1 "$X")) [] 0 2 [] :: [], 1, []⟩ _ :=
+    Spec.Grp.CStep.clauseOk (key := "u/1") (f := 20) (by decide) (by rfl) (by rfl)
+  refine ⟨_, ?k, ?s, ?S, ?c, ?o, h1, by decide, ?h2, ?h3⟩
+  case h2 =>
+    refine Spec.Grp.CStepsAbove.step Spec.Grp.CStep.conj (by decide) ?_
+    refine Spec.Grp.CStepsAbove.step Spec.Grp.CStep.disj (by decide) ?_
+    refine Spec.Grp.CStepsAbove.step Spec.Grp.CStep.altStep (by decide) ?_
+    refine Spec.Grp.CStepsAbove.step Spec.Grp.CStep.conj (by decide) ?_
+    refine Spec.Grp.CStepsAbove.step (Spec.Grp.CStep.call (key := "g/1") (by decide)) (by decide) ?_
+    refine Spec.Grp.CStepsAbove.step (Spec.Grp.CStep.clauseOk (key := "g/1") (f := 20) (by decide) (by rfl) (by rfl)) (by decide) ?_
+    exact Spec.Grp.CStepsAbove.refl
   case h3 => decide
 
 end Suiron.C02
